@@ -888,7 +888,7 @@ func (t *fnTrans) applyContract(fc *FuncContract, key string, sig *types.Signatu
 			env.vars[names[i]] = bound{Val{P: v.P, T: ""}, argTys[i]}
 			continue
 		}
-		env.vars[names[i]] = bound{Val{T: t.term(v), IfaceP: v.IfaceP, IfaceT: v.IfaceT}, argTys[i]}
+		env.vars[names[i]] = bound{Val{T: t.term(v), IfaceP: v.IfaceP, IfaceT: v.IfaceT, Fn: v.Fn, Bnd: v.Bnd}, argTys[i]}
 	}
 	short := key
 	if fn != nil {
